@@ -423,12 +423,36 @@ class LockAnalysis:
                     state[src] = LockVal(v.mutex, v.mode, UNOWNED)
             return
 
+    def _raw_mutex_call(self, st, state, pos, obj):
+        """raw operations on a bare mutex are tracked too (key 'raw:<path>'), so that the lockset is right;
+        that they bypass RAII is reported by the *.raii rules"""
+        f = self.f
+        mp = path(f, obj)
+        if mp is None:
+            return
+        name = st["callee"]["name"]
+        key = "raw:" + mp
+        if name in ("lock", "lock_shared"):
+            v = LockVal(mp, "S" if name == "lock_shared" else "X", HELD)
+            state[key] = v
+            self.acquire_events.append((pos, key, v, True, st))
+        elif name in ("unlock", "unlock_shared"):
+            state.pop(key, None)
+        elif name in ("try_lock", "try_lock_for", "try_lock_until", "try_lock_shared", "try_lock_shared_for",
+                      "try_lock_shared_until"):
+            v = LockVal(mp, "S" if "shared" in name else "X", MAYBE)
+            state[key] = v
+            self.acquire_events.append((pos, key, v, "try" if name in ("try_lock", "try_lock_shared") else "timed", st))
+
     def _member_call(self, st, state, pos):
         f = self.f
         obj = f.s(st["obj"])
         if obj is None:
             return
         ot = obj.get("t", "")
+        if is_mutex_type(ot):
+            self._raw_mutex_call(st, state, pos, obj)
+            return
         if not is_lock_carrier(ot):
             return
         key = self.key_of_expr(obj)
@@ -542,6 +566,16 @@ class LockAnalysis:
             return
         if cond["k"] == "CXXMemberCallExpr":
             obj = f.s(cond["obj"])
+            if obj is not None and is_mutex_type(obj.get("t", "")) and cond["callee"]["name"].startswith("try_lock"):
+                key = "raw:" + (path(f, obj) or "?")
+                for stt, new in ((t_state, HELD), (f_state, UNOWNED)):
+                    v = stt.get(key)
+                    if v is not None and v.st == MAYBE:
+                        if new == HELD:
+                            stt[key] = LockVal(v.mutex, v.mode, HELD)
+                        else:
+                            stt.pop(key, None)
+                return
             if obj is None or not is_lock_carrier(obj.get("t", "")):
                 return
             name = cond["callee"]["name"]
